@@ -319,6 +319,8 @@ def check_case(case):
         numeric_goals_only(r, case)
         if not r.fails:
             shared_items_in_other_orders(r, case)
+        if not r.fails:
+            constants_of_several_types(r, case)
     return r
 
 
@@ -410,4 +412,57 @@ def shared_items_in_other_orders(r, case):
                        want, str(re_)[:200], tags=["shared-orders"])
                 shutil.rmtree(d, ignore_errors=True)
                 return
+    shutil.rmtree(d, ignore_errors=True)
+
+
+def constants_of_several_types(r, case):
+    """three constants of two types (k - t1, k2 - t2, k3 - t1), each owned by every non-empty subset of two agents, each
+    file listing its constants in every order, both discovery orders: the combined domain and its export / re-parse
+    declare each constant once with its own type (in the union same-typed constants need not be neighbours)"""
+    from itertools import permutations as _perms, product as _prod
+    from pddl_plus_parser.multi_agent import MultiAgentDomainsConverter
+    CON = {"k": "t1", "k2": "t2", "k3": "t1"}
+    want = dict(CON)
+    d = pathlib.Path(scratch_dir()) / f"c17_ct_{os.getpid()}"
+    body = ("(:predicates (p ?a - t1) (s0 ?a - t2))\n"
+            "(:action a1 :parameters (?x - t1) :precondition (and (p ?x)) :effect (and (not (p ?x)) (p k) (s0 k2) (p k3)))")
+    owners = [(0,), (1,), (0, 1)]
+    for own in _prod(owners, repeat=3):
+        mine = {ag: [c for c, o in zip(CON, own) if ag in o] for ag in (0, 1)}
+        for o0 in _perms(mine[0]):
+            for o1 in _perms(mine[1]):
+                for swap in (False, True):
+                    shutil.rmtree(d, ignore_errors=True)
+                    d.mkdir()
+                    out = d / "out"
+                    out.mkdir()
+                    for ag, order in ((0, o0), (1, o1)):
+                        # every file declares all three (its action mentions them); the OWNED ones come first, in the
+                        # enumerated order, the others after them
+                        rest = [c for c in CON if c not in order]
+                        consts = " ".join(f"{c} - {CON[c]}" for c in list(order) + rest)
+                        name = f"domain-ag{1 - ag if swap else ag}.pddl"
+                        (d / name).write_text(f"(define (domain mad)\n(:requirements :typing :negative-preconditions)\n{TYPES}\n"
+                                              f"(:constants {consts})\n{body})\n")
+                    label = f"constants team: files list {list(o0) + [c for c in CON if c not in o0]} / {list(o1) + [c for c in CON if c not in o1]}" \
+                            f"{' (file names swapped)' if swap else ''}"
+                    dom = guard(lambda: MultiAgentDomainsConverter(d).locate_domains())
+                    got = guard(lambda: {n: c.type.name for n, c in dom.constants.items()}) if not isinstance(dom, Raised) else dom
+                    r.count("transitions")
+                    r.count("states")
+                    if isinstance(got, Raised) or got != want:
+                        r.fail("domain-union", f"{label}: combined constants {got}, expected {want}", want, str(got)[:200],
+                               tags=["constants-types"])
+                        shutil.rmtree(d, ignore_errors=True)
+                        return
+                    path = guard(lambda: MultiAgentDomainsConverter(d).export_combined_domain(add_dummy_actions=False, output_folder=out))
+                    re_ = guard(lambda: {n: c.type.name for n, c in parse_domain(open(path).read()).constants.items()}) \
+                        if not isinstance(path, Raised) else path
+                    r.count("transitions")
+                    if isinstance(re_, Raised) or re_ != want:
+                        r.fail("domain-roundtrip", f"{label}: the exported combined domain parses back with constants {re_}, expected "
+                               f"{want}; exported text:\n{open(path).read()[:500] if not isinstance(path, Raised) else path}", want,
+                               str(re_)[:200], tags=["constants-types"])
+                        shutil.rmtree(d, ignore_errors=True)
+                        return
     shutil.rmtree(d, ignore_errors=True)
